@@ -902,3 +902,48 @@ pub fn replay_file(props: &[Property], path: &str) -> i32 {
         },
     }
 }
+
+
+// ---------------------------------------------------------------------------------------------
+// Diagnostics are part of the code under test: the crate is built with `trace-more` and a
+// subscriber that enables every callsite (and discards everything) is installed, so that the field
+// expressions of every log statement are evaluated on every path the checks drive.
+
+struct EvalAll;
+
+impl tracing::Subscriber for EvalAll {
+    fn enabled(&self, _: &tracing::Metadata<'_>) -> bool {
+        true
+    }
+    fn new_span(&self, _: &tracing::span::Attributes<'_>) -> tracing::span::Id {
+        tracing::span::Id::from_u64(1)
+    }
+    fn record(&self, _: &tracing::span::Id, _: &tracing::span::Record<'_>) {}
+    fn record_follows_from(&self, _: &tracing::span::Id, _: &tracing::span::Id) {}
+    fn event(&self, event: &tracing::Event<'_>) {
+        // format the fields too (Display / Debug implementations run), into nothing
+        struct V;
+        impl tracing::field::Visit for V {
+            fn record_debug(&mut self, _: &tracing::field::Field, value: &dyn std::fmt::Debug) {
+                use std::fmt::Write;
+                struct Null;
+                impl Write for Null {
+                    fn write_str(&mut self, _: &str) -> std::fmt::Result {
+                        Ok(())
+                    }
+                }
+                let _ = write!(Null, "{value:?}");
+            }
+        }
+        event.record(&mut V);
+    }
+    fn enter(&self, _: &tracing::span::Id) {}
+    fn exit(&self, _: &tracing::span::Id) {}
+}
+
+/// Installs the evaluate-everything subscriber (unless `VERIF_NO_TRACE` is set).
+pub fn install_tracing() {
+    if std::env::var_os("VERIF_NO_TRACE").is_none() {
+        let _ = tracing::subscriber::set_global_default(EvalAll);
+    }
+}
